@@ -98,11 +98,20 @@ impl<E: Executor> Pool<E> {
                                     }
                                 };
 
-                                let mut connections = pool.connections.lock().await;
-                                let Some(connections) = connections.as_mut() else {
+                                let mut connections_guard = pool.connections.lock().await;
+                                let Some(connections) = connections_guard.as_mut() else {
                                     // The transport was shut down
                                     return;
                                 };
+
+                                if connections.len() >= pool.config.max_size as usize {
+                                    // The idle set is already full (connections were
+                                    // returned in the meantime, or `min_idle > max_size`)
+                                    drop(connections_guard);
+                                    let mut conn = conn;
+                                    conn.abort().await;
+                                    break;
+                                }
 
                                 connections.push(ParkedConnection::park(conn));
 
